@@ -180,6 +180,7 @@ def step (s : DState) (line : String) : DState × Option String :=
       let (w, o) := clean s.ora s.w (srt = "1") run count
       ({ s with w := w }, some (outStr "clean" o))
     | _, _ => bad s line
+  | ["skipline"] => (s, some "skipline")
   | ["pdiff", e, r, name, line] =>
     match unhex e, unhex r, unhex name, line.toNat? with
     | some e, some r, some name, some line =>
